@@ -206,23 +206,25 @@ Definition chall_closed (P : list (naddr * chall * N) -> Prop) : Prop :=
 
 Definition QC (s s' : st) : Prop :=
   (forall P, chall_closed P -> P (challenges (hs s)) -> P (challenges (hs s'))) /\
-  SessD (hs s) (hs s') /\ OutsExt quiet_out s s'.
+  SessD (hs s) (hs s') /\ OutsExt quiet_out s s' /\ UPres (hs s) (hs s').
 
 Lemma QC_refl s : QC s s.
-Proof. split; [auto | split; [apply SessD_refl | apply OutsExt_refl]]. Qed.
+Proof. split; [auto | split; [apply SessD_refl | split; [apply OutsExt_refl | intros H; exact H]]]. Qed.
 Lemma QC_trans a b d : QC a b -> QC b d -> QC a d.
 Proof.
-  intros [H1 [D1 O1]] [H2 [D2 O2]]. split; [| split; [eapply SessD_trans | eapply OutsExt_trans]; eauto].
-  intros P HP H. apply H2; [exact HP |]. apply H1; assumption.
+  intros [H1 [D1 [O1 U1]]] [H2 [D2 [O2 U2]]].
+  split; [| split; [eapply SessD_trans; eauto | split; [eapply OutsExt_trans; eauto |]]].
+  - intros P HP H. apply H2; [exact HP |]. apply H1; assumption.
+  - intros H. apply U2. apply U1. exact H.
 Qed.
 Lemma Quiet_QC s s' : Quiet s s' -> QC s s'.
-Proof. intros [[E D] O]. split; [intros P _ H; rewrite E; exact H | auto]. Qed.
+Proof. intros [[E [D U]] O]. split; [intros P _ H; rewrite E; exact H | auto]. Qed.
 
 Lemma QC_fire_challenge c s na now : QC s (fire_challenge c s na now).
 Proof.
   unfold fire_challenge. eapply QC_trans; [| apply Quiet_QC; apply Quiet_send_pending_requests].
   eapply QC_trans; [| apply Quiet_QC; apply Quiet_remove_expected].
-  split; [| split; [apply SessD_same; reflexivity | apply OutsExt_same; reflexivity]].
+  split; [| split; [apply SessD_same; reflexivity | split; [apply OutsExt_same; reflexivity | apply UPres_same; reflexivity]]].
   intros P HP H. cbn [hs with_hs challenges set_challenges]. apply HP. exact H.
 Qed.
 
